@@ -23,9 +23,10 @@ Modelled, not verified: msgpack's byte format (data-model level only), the doubl
 conversion (`r32`, `widen` are the hardware's; only `r32 (widen b) = b` is assumed where stated).
 -/
 import Molli.Lemmas.CodecRT
+import Molli.Lemmas.Msgpack
 import Molli.Gen.Schema
 namespace Molli.Props.C01
-open Molli.Util Molli.Model.Codec Molli.Lemmas.Codec
+open Molli.Util Molli.Model.Codec Molli.Lemmas.Codec Molli.Model.Msgpack
 
 /-! ### byte layer and array layer -/
 
@@ -330,8 +331,8 @@ def roundtrip_exact_statement : Prop :=
 
 /-- a molecule of no atoms whose attributes hold the list `[1]` -/
 def listWitness : MolRec :=
-  { name := .str "w", charge := .int 0, mult := .int 1,
-    attrib := .map [(.str "a", .arr true [.int 1])], atoms := [], bonds := [], coords := [], charges := [] }
+  { name := .str [119], charge := .int 0, mult := .int 1,
+    attrib := .map [(.str [97], .arr true [.int 1])], atoms := [], bonds := [], coords := [], charges := [] }
 
 /-- **D01 (known finding)**: `attrib = {'a': [1]}` reads back as `{'a': (1,)}` — msgpack has a single array
 type and the decoder is told `use_list=False`; the exact statement is false of the code. -/
@@ -398,13 +399,49 @@ theorem library_roundtrip (l : Lib) (k : String) (m : MolRec) (hw : m.WF) (hno :
     rw [hget]
     cases h : l.get k' <;> simp [Ne.symm hne]
 
+/-! ### down to the bytes in the file -/
+
+/-- msgpack's byte format (`Molli.Model.Msgpack`: smallest integer / length forms, float64, bin, str,
+array, map headers): decoding the encoding of any value msgpack accepts gives exactly `N v` — the
+normalisation used above is a theorem about the format, not an assumption. Unbounded nesting. -/
+theorem msgpack_roundtrip (v : MVal) (hp : packable v = true) : loads (pack v) = some (N v) :=
+  Molli.Lemmas.Msgpack.loads_pack v hp
+
+/-- any bytes may follow (records are stored back to back in the file) -/
+theorem msgpack_roundtrip_prefix (v : MVal) (hp : packable v = true) (rest : Bytes) :
+    unpack (pack v).length (pack v ++ rest) = some (N v, rest) :=
+  Molli.Lemmas.Msgpack.unpack_pack v hp _ rest (Molli.Lemmas.Msgpack.depth_le_length v)
+
+/-- **MoleculeLibrary, bytes in, object out**: the value stored under a key is `pack (ser m)` (compared byte for
+byte with the real files on every run); decoding those bytes and applying the decoder gives `normMol m`. -/
+theorem mol_v2_bytes_roundtrip (m : MolRec) (hw : m.WF) (hno : NoOther m.atoms m.bonds)
+    (hp : packable (serMol serMolV2 m) = true) :
+    (loads (pack (serMol serMolV2 m))).map (deserMol deserMolV2) = some (.ok (normMol m)) := by
+  rw [msgpack_roundtrip _ hp, Option.map_some, mol_v2_roundtrip m hw hno]
+
+/-- **ConformerLibrary, bytes in, object out** -/
+theorem ens_v2_bytes_roundtrip (e : EnsRec) (hw : e.WF) (hno : NoOther e.atoms e.bonds)
+    (hp : packable (serEns serEnsV2 e) = true) :
+    (loads (pack (serEns serEnsV2 e))).map (deserEns deserEnsV2) = some (.ok (normEns e)) := by
+  rw [msgpack_roundtrip _ hp, Option.map_some, ens_v2_roundtrip e hw hno]
+
+theorem mol_v1_bytes_roundtrip (m : MolRec) (hw : m.WF) (hno : NoOther m.atoms m.bonds)
+    (hl : LegacyDomain m.attrib m.atoms m.bonds) (hp : packable (serMol serMolV1 m) = true) :
+    (loads (pack (serMol serMolV1 m))).map (deserMol deserMolV1) = some (.ok (normMol m)) := by
+  rw [msgpack_roundtrip _ hp, Option.map_some, mol_v1_roundtrip m hw hno hl]
+
+theorem ens_v1_bytes_roundtrip (e : EnsRec) (hw : e.WF) (hno : NoOther e.atoms e.bonds)
+    (hl : LegacyDomain e.attrib e.atoms e.bonds) (hp : packable (serEns serEnsV1 e) = true) :
+    (loads (pack (serEns serEnsV1 e))).map (deserEns deserEnsV1) = some (.ok (normEns e)) := by
+  rw [msgpack_roundtrip _ hp, Option.map_some, ens_v1_roundtrip e hw hno hl]
+
 /-! ### non-vacuity: concrete objects meeting the hypotheses -/
 
 /-- a two-atom, one-bond molecule with a nested attribute tree, a non-string key and a NaN coordinate -/
 def sample : MolRec :=
-  { name := .str "probe", charge := .int (-2), mult := .int 3,
-    attrib := .map [(.int 1, .str "a"), (.str "t", .arr false [.int 1, .f64 0x3fb999999999999a, .nil])],
-    atoms := [AtomRec.ofList [.int 6, .int 13, .str "c1", .int 2, .int 10, .int 31, .int (-1), .int 1, .map [(.str "k", .bool true)]],
+  { name := .str [112, 114, 111, 98, 101], charge := .int (-2), mult := .int 3,
+    attrib := .map [(.int 1, .str [97]), (.str [116], .arr false [.int 1, .f64 0x3fb999999999999a, .nil])],
+    atoms := [AtomRec.ofList [.int 6, .int 13, .str [99, 49], .int 2, .int 10, .int 31, .int (-1), .int 1, .map [(.str [107], .bool true)]],
               AtomRec.ofList [.int 0, .nil, .nil, .int 1, .int 0, .int 0, .int 0, .int 0, .map []]],
     bonds := [BondRec.ofList [.int 1, .int 0, .nil, .int 20, .int 10, .f64 0x3fb999999999999a, .map []]],
     coords := [[0x3ff0000000000000, 0x4000000000000000, 0x7ff8000000000000], [0, 0x8000000000000000, 0x3fb999999999999a]],
@@ -426,13 +463,15 @@ theorem sample_noother : NoOther sample.atoms sample.bonds := by
 example : deserMol deserMolV2 (N (serMol serMolV2 sample)) = .ok (normMol sample) :=
   mol_v2_roundtrip sample sample_wf sample_noother
 
+example : packable (serMol serMolV2 sample) = true := by decide
+
 example : PlainMol sample := by
   refine ⟨⟨_, rfl⟩, ⟨_, rfl⟩, ⟨3, rfl, by decide⟩, ⟨_, rfl, rfl⟩, ?_, ?_⟩
   · intro a ha f; simp [sample] at ha; rcases ha with rfl | rfl <;> cases f <;> rfl
   · intro b hb f; simp [sample] at hb; subst hb; cases f <;> rfl
 
 /-- an ensemble of no conformers and one of two conformers of one atom are in the domain -/
-example : (⟨.str "e", .int 0, .int 1, .map [], [], [], [], [], []⟩ : EnsRec).WF :=
+example : (⟨.str [101], .int 0, .int 1, .map [], [], [], [], [], []⟩ : EnsRec).WF :=
   ⟨(by intro c hc; cases hc), (by intro c hc; cases hc), rfl, rfl, (by intro q hq; cases hq), (by intro b hb; cases hb)⟩
 
 end Molli.Props.C01
